@@ -42,6 +42,23 @@ def matches(observed, expected):
     return False
 
 
+def diff_paths(a, b, prefix=""):
+    """paths at which two observations differ"""
+    if a == b:
+        return []
+    if isinstance(a, dict) and isinstance(b, dict) and a.keys() == b.keys():
+        out = []
+        for k in a:
+            out += diff_paths(a[k], b[k], f"{prefix}.{k}" if prefix else str(k))
+        return out
+    if isinstance(a, tuple) and isinstance(b, tuple) and len(a) == len(b):
+        out = []
+        for i, (x, y) in enumerate(zip(a, b)):
+            out += diff_paths(x, y, f"{prefix}[{i + 1}]")
+        return out
+    return [prefix or "."]
+
+
 def base_name(name):
     return name.split(KF)[0]
 
@@ -76,6 +93,8 @@ class Walker:
         self.runs = 0
         self.action_hits = {}
         self.kf_hits = {}
+        self.kf_cases = {}
+        self.dead = set()
         self.samples = []
         self.violations = []
         self._closure = {}
@@ -110,13 +129,19 @@ class Walker:
                         self.depth[t] = self.depth[u] + 1
                         self.root[t] = self.root[u]
                         dq.append(t)
+        self.group = {}
+        for u in self.parent:
+            for lab, v in self.adj[u]:
+                n2, a2 = g.label(lab)
+                self.group.setdefault((u, base_name(n2), a2), []).append((u, lab, v))
         idx, n = shard
         for u in self.parent:  # only quiescent reachable states have controlled edges worth targeting
             for lab, v in self.adj[u]:
                 e = (u, lab, v)
                 if edge_filter and not edge_filter(e):
                     continue
-                if n == 1 or (hash(e) % n) == idx:
+                n2, a2 = g.label(lab)
+                if n == 1 or (hash((u, base_name(n2), a2)) % n) == idx:
                     self.targets.add(e)
                     self.todo.setdefault(u, set()).add((lab, v))
 
@@ -184,7 +209,10 @@ class Walker:
                     e = plan[k]
                     k += 1
                     if e[0] not in cur or (e[0], e[1]) in self.blocked:
-                        # diverted by spec nondeterminism or a known-bad edge: give this target up
+                        # diverted by spec nondeterminism or a known-bad edge: give this target up; the state the
+                        # plan expected here is not reached by this implementation along the tree path
+                        if e[0] not in cur:
+                            self.dead.add(e[0])
                         self._done(target)
                         self.alt.add(target)
                         e = self._local_target(cur)
@@ -223,6 +251,13 @@ class Walker:
                         matched.append((s, lab2, v2))
                         new.update(hit)
                         self.covered.update(used)
+                # an intended (non-deviation) successor that explains the observation wins over deviation ones
+                plain = [m for m in matched if KF not in g.label(m[1])[0]]
+                if plain and len(plain) < len(matched):
+                    matched = plain
+                    new = set()
+                    for (s, lab2, v2) in matched:
+                        new.update(t for t in self.closure(v2)[0] if matches(observed, norm(g.obs(t))))
                 path.append(dict(label=lab, observed=observed))
                 if not matched:
                     expected = []
@@ -238,6 +273,13 @@ class Walker:
                     raise Violation(dict(why="no spec successor explains the observation",
                                          init=g.state(init), path=[p["label"] for p in path],
                                          action=lab, observed=observed, expected=expected))
+                # this action instance has been exercised from these states: its other successors (spec
+                # nondeterminism, deviation havoc) are alternatives this implementation did not take
+                for s in cur:
+                    for e2 in self.group.get((s, bname, args), ()):
+                        if e2 in self.targets and e2 not in matched:
+                            self._done(e2)
+                            self.alt.add(e2)
                 for m in matched:
                     self.covered.add(m)
                     self._done(m)
@@ -245,6 +287,14 @@ class Walker:
                     if KF in n2:
                         kid = n2.split(KF)[1]
                         self.kf_hits[kid] = self.kf_hits.get(kid, 0) + 1
+                        intended = [norm(g.obs(t)) for (s3, lab3, v3) in cands if KF not in g.label(lab3)[0]
+                                    for t in self.closure(v3)[0]]
+                        diff = tuple(sorted(diff_paths(observed, intended[0]))) if intended else ("no-intended-successor",)
+                        key = (kid, base_name(n2), diff, repr(sorted(g.state(init).items(), key=repr))[:300])
+                        if key not in self.kf_cases and len(self.kf_cases) < 1000:
+                            self.kf_cases[key] = dict(kid=kid, action=lab, diff=list(diff), observed=observed,
+                                                      intended=intended[0] if intended else None,
+                                                      init=g.state(init), path=[p["label"] for p in path])
                 if e in self.targets:  # a sibling explained it; the intended edge is not taken by this impl
                     self._done(e)
                     self.alt.add(e)
@@ -269,6 +319,10 @@ class Walker:
         for target in order:
             if target not in self.targets:
                 continue
+            if self.dead and self._through_dead(target[0]):
+                self._done(target)
+                self.alt.add(target)
+                continue
             if self.budget_s and time.time() - t0 > self.budget_s:
                 break
             if len(self.violations) >= self.max_violations:
@@ -282,6 +336,14 @@ class Walker:
                     self.violations.append(v.record)
             self._done(target) if target in self.targets and self._stuck(target) else None
         return self
+
+    def _through_dead(self, u):
+        while u is not None:
+            if u in self.dead:
+                return True
+            e = self.parent[u]
+            u = e[0] if e is not None else None
+        return False
 
     def _stuck(self, target):
         """a target that a run did not manage to cover is retried once, then given up as alternative"""
@@ -300,7 +362,8 @@ class Walker:
         return dict(edges_total=total, edges_internal=internal,
                     edges_covered=len(self.covered), edges_alternative=len(self.alt),
                     edges_uncovered=len(self.targets), runs=self.runs, steps=self.steps,
-                    impl_action_hits=dict(sorted(self.action_hits.items())), known_finding_hits=dict(self.kf_hits))
+                    impl_action_hits=dict(sorted(self.action_hits.items())), known_finding_hits=dict(self.kf_hits),
+                    known_finding_cases=list(self.kf_cases.values()))
 
 
 def _worker(args):
@@ -308,7 +371,7 @@ def _worker(args):
     w = Walker(graph, factory, shard=shard, **kw)
     w.walk()
     return dict(covered=w.covered, alt=w.alt, left=w.targets, steps=w.steps, runs=w.runs,
-                hits=w.action_hits, kf=w.kf_hits, samples=w.samples, violations=w.violations)
+                hits=w.action_hits, kf=w.kf_hits, kfc=w.kf_cases, samples=w.samples, violations=w.violations)
 
 
 def walk_sharded(graph, factory, nproc=8, **kw):
@@ -326,7 +389,10 @@ def walk_sharded(graph, factory, nproc=8, **kw):
     covered, alt, left = set(), set(), set()
     steps = runs = 0
     hits, kf, samples, violations = {}, {}, [], []
+    kfc = {}
     for p in parts:
+        for k, v in p["kfc"].items():
+            kfc.setdefault(k, v)
         covered |= p["covered"]
         alt |= p["alt"]
         left |= p["left"]
@@ -345,7 +411,8 @@ def walk_sharded(graph, factory, nproc=8, **kw):
     n_int = sum(1 for e in graph.edges() if graph.label(e[1])[0] in internal)
     st = dict(edges_total=total, edges_internal=n_int, edges_covered=len(covered),
               edges_alternative=len(alt), edges_uncovered=len(left), runs=runs, steps=steps,
-              impl_action_hits=dict(sorted(hits.items())), known_finding_hits=kf)
+              impl_action_hits=dict(sorted(hits.items())), known_finding_hits=kf,
+              known_finding_cases=list(kfc.values()))
     return st, samples[:3], violations
 
 
